@@ -253,7 +253,7 @@ def gen_workload(tape):
         elif o["op"] in ("native_grids", "get_tile"):
             o["tile"] = tape.choice(27, "tile") if w["config"] == "fast" else 12 + tape.choice(2, "iotile")
         if w["config"] == "io":
-            o["net"] = tape.pick(["ok", "ok", "urlerror", "body_error"], "net")
+            o["net"] = tape.pick(["ok", "ok", "urlerror", "body_error", "ok", "emfile"], "net")
             o["net_k"] = tape.choice(5000, "netk")
         ops.append(o)
     w["ops"] = ops
@@ -309,6 +309,25 @@ class FakeNet:
         return FakeNet._Body(data, None)
 
 
+class _NpFault:
+    """numpy as typhon.topography sees it: `fromfile` can fail once with
+    EMFILE (too many open files) when it opens a tile that is in the cache."""
+
+    def __init__(self):
+        self.armed = False
+        self.fired = False
+
+    def fromfile(self, file, *a, **kw):
+        if self.armed and os.path.exists(str(file)):
+            self.armed = False
+            self.fired = True
+            raise OSError(24, "injected EMFILE opening a cached tile", str(file))
+        return np.fromfile(file, *a, **kw)
+
+    def __getattr__(self, name):
+        return getattr(np, name)
+
+
 class _UrllibProxy:
     def __init__(self, net):
         self.request = net
@@ -349,6 +368,7 @@ def run_one(tape, only=None):
     faults = {}
     nontrivial = 0
     net = FakeNet()
+    npfault = _NpFault()
     fast_log = []
 
     def probe(k):
@@ -389,7 +409,7 @@ def run_one(tape, only=None):
         seams += [(SRTM30, "get_tile", staticmethod(fast_get_tile)),
                   (SRTM30, "download_tile", staticmethod(fast_download))]
     else:
-        seams += [(tmod, "urllib", _UrllibProxy(net))]
+        seams += [(tmod, "urllib", _UrllibProxy(net)), (tmod, "np", npfault)]
     try:
         with patched(*seams), warnings.catch_warnings():
             warnings.simplefilter("ignore")
@@ -444,11 +464,14 @@ def run_one(tape, only=None):
                     log_before = len(net.log) + len(fast_log)
                     if w["config"] == "io":
                         net.mode, net.k = o["net"], o["net_k"]
+                        if o["net"] == "emfile":
+                            net.mode = "ok"
+                            npfault.armed, npfault.fired = True, False
                     try:
                         state["nontrivial"] += _do_op(
                             o, w, V, probe, SRTM30, cache, net, fast_log,
                             present_before, log_before, faults, state["had_fault"],
-                            outcomes)
+                            outcomes, npfault)
                     except AssertionError:
                         raise
                     except Exception as e:  # noqa: typhon raised where nothing was injected
@@ -458,6 +481,7 @@ def run_one(tape, only=None):
                             net.log[-1][1] != "ok":
                         state["had_fault"] = True
                     net.mode = "ok"
+                    npfault.armed = False
 
             try:
                 sim.run(main)
@@ -496,7 +520,7 @@ def run_one(tape, only=None):
 
 
 def _do_op(o, w, V, probe, SRTM30, cache, net, fast_log, present_before,
-           log_before, faults, had_fault, outcomes):
+           log_before, faults, had_fault, outcomes, npfault=None):
     kind = o["op"]
     names = list(_T["tiles"])
     nontrivial = 0
@@ -571,6 +595,13 @@ def _do_op(o, w, V, probe, SRTM30, cache, net, fast_log, present_before,
         probe("warm_cache_hit")
     if dl_names:
         probe("cold_download")
+    if npfault is not None and npfault.fired:
+        # opening a cached tile failed once: the request may fail - the
+        # download rule above was judged all the same
+        npfault.fired = False
+        faults["emfile_opening_cached_tile"] = faults.get("emfile_opening_cached_tile", 0) + 1
+        outcomes.append((kind, "emfile"))
+        return 1
     injected = [d for d in downloads if d[1] != "ok"]
     if injected:
         faults[injected[0][1]] = faults.get(injected[0][1], 0) + 1
